@@ -56,6 +56,7 @@ return {
   flush = function(f) return f:flush() end,
   setvbuf = function(f, ...) return f:setvbuf(...) end,
   close = function(f) return f:close() end,
+  mkit = function(f) return f:lines() end,
   lines = function(f, max)
     local t, n = {}, 0
     for l in f:lines() do
@@ -98,7 +99,7 @@ return {
 
 type env struct {
 	L                                                                        *lua.LState
-	open, read, write, seek, flush, setvbuf, close, lines, fresh, freshlines lua.LValue
+	open, read, write, seek, flush, setvbuf, close, lines, fresh, freshlines, mkit lua.LValue
 }
 
 func newEnv() *env {
@@ -113,6 +114,7 @@ func newEnv() *env {
 	e.setvbuf = h.RawGetString("setvbuf")
 	e.close = h.RawGetString("close")
 	e.lines = h.RawGetString("lines")
+	e.mkit = h.RawGetString("mkit")
 	e.fresh = h.RawGetString("fresh")
 	e.freshlines = h.RawGetString("freshlines")
 	return e
@@ -217,6 +219,8 @@ func showOp(op *Op) string {
 		s += fmt.Sprintf("(%s,%d;na=%d)", op.Mode, op.Size, op.NA)
 	case "lines":
 		s += fmt.Sprintf("(max=%d)", op.Max)
+	case "itnext":
+		s += "(one call of the iterator f:lines() returned earlier, or returns now)"
 	}
 	return s
 }
@@ -240,6 +244,7 @@ func execCase(c *fw.Ctx, cs *Case, path string, count bool, isOpen func(string) 
 	L := e.L
 	w := newWorld(cs)
 	var uds [2]lua.LValue
+	var its [2]lua.LValue // the iterator f:lines() gave for the handle in this slot
 	defer func() {
 		for _, ud := range uds {
 			if ud != nil {
@@ -410,6 +415,21 @@ func execCase(c *fw.Ctx, cs *Case, path string, count bool, isOpen func(string) 
 		switch op.Op {
 		case "open":
 			res, o = gl.Call(L, e.open, lua.LString(path), lua.LString(op.Mode))
+			its[op.H] = nil
+		case "itnext":
+			if its[op.H] == nil {
+				res, o = gl.Call(L, e.mkit, ud)
+				if o.Err == nil && o.GoPanic == nil && len(res) >= 1 && res[0].Type() == lua.LTFunction {
+					its[op.H] = res[0]
+					cnt("lines_iterators_created", 1)
+				}
+			}
+			if its[op.H] != nil {
+				res, o = gl.Call(L, its[op.H])
+				if wasClosed {
+					cnt("iterator_calls_after_close", 1)
+				}
+			}
 		case "read":
 			args := []lua.LValue{ud}
 			for _, f := range op.Fmts {
